@@ -794,7 +794,6 @@ def finishOp (x : CS) (o : OpOut) : CS × String :=
   | .dropped id h detached extra =>
     -- the handle left the shared table when the operation started
     let sess := x.sess
-    let sess := if h.dropsValue detached then { sess with dropCount := sess.dropCount + 1 } else sess
     let x := { x with sess := sess, fills := x.fills.filter (·.1 != id) }
     (x, if extra == "" then s!"r=ok dc={sess.dropCount}" else extra)
 
@@ -814,6 +813,16 @@ partial def advance (x : CS) (t : Thread) : CS :=
     | op :: rest =>
       let p := mkOp x op
       -- a release takes its handle out of the shared table for the duration of the operation
+      -- (the value a dropped handle owns is dropped FIRST, before the release makes its first atomic access: the drop
+      -- counter moves when the operation starts)
+      let x := match op with
+        | ["drop", h] =>
+          (match h.toNat? with
+           | some id => (match x.sess.find id with
+             | some hd => if hd.dropsValue false then { x with sess := { x.sess with dropCount := x.sess.dropCount + 1 } } else x
+             | none => x)
+           | none => x)
+        | _ => x
       let x := match op with
         | [o, h] => if o == "drop" || o == "detach" || o == "dealloc" then
             (match h.toNat? with | some id => { x with sess := x.sess.erase id } | none => x)
